@@ -74,18 +74,20 @@ theorem prompt_stop (F : Facts) (hF : F.all = true) (s : Sys) (evs : List Ev) (i
 /-- a VM blocked in a channel operation does not even need the flag: the closed `Done()` channel
 wakes it (that is the done case), and it then sets the flag for everybody else (`vm.stop`) -/
 theorem blocked_wakes_on_cancel (F : Facts) (hF : F.all = true) (s : Sys) (i : Nat) (pc : Nat)
-    (b : Blocked) (hc : s.ctxClosed = true) (hv : s.vms[i]? = some ⟨pc, .blocked b⟩)
-    (hs : F.stopSetsFlag = true) :
-    (s.apply F (.step i false)).vms[i]? = some ⟨pc, .stopped⟩ ∧
+    (b : Blocked) (fr : List CbFrame) (hc : s.ctxClosed = true)
+    (hv : s.vms[i]? = some ⟨pc, .blocked b, fr⟩) (hs : F.stopSetsFlag = true) :
+    (s.apply F (.step i false)).vms[i]? = some ⟨pc, .stopped, []⟩ ∧
     (s.apply F (.step i false)).flag = true := by
   have hd : F.doneCase b = true := by
     simp only [Facts.all, Bool.and_eq_true] at hF
     cases b <;> simp [Facts.doneCase, hF]
+  have he : F.epilogue = true := by
+    simp only [Facts.all, Bool.and_eq_true] at hF; exact hF.2
   constructor
   · rw [apply_vm_self F s i false _ hv]
-    simp [stepVM, blockStep, hd, hc]
+    simp [stepVM, blockStep, stopVM, hd, hc, he]
   · rw [apply_step, hv]
-    simp [stepAt_flag, stepVM, blockStep, hd, hc, hs]
+    simp [stepAt_flag, stepVM, blockStep, stopVM, hd, hc, hs, he]
 
 theorem stepAt_result_main (F : Facts) (s : Sys) (rdy : Bool) (v : VM) :
     (s.stepAt F 0 rdy v).result =
@@ -256,7 +258,7 @@ is over) before the context is cancelled, Run returns the code's own outcome -/
 def FinishedBeforeCancelFull : Prop :=
   ∀ (F : Facts) (prog : List Instr) (before after : List Ev), F.all = true →
     Ev.cancel ∉ before →
-    (∃ pc, (init prog |>.run F before).vms[0]? = some ⟨pc, .finishing⟩) →
+    (∃ pc, (init prog |>.run F before).vms[0]? = some ⟨pc, .finishing, []⟩) →
     ((init prog |>.run F before).run F after).result ≠ some .ctxErr
 
 /-- … which is **false** of the code as it is: `runFunc` re-reads `env.done` after the code has
@@ -266,7 +268,7 @@ the context is cancelled, the watcher runs, and only then `runFunc` does its re-
 the caller cancelled, and gets the context's error.) -/
 theorem finishedBeforeCancelFull_false : ¬ FinishedBeforeCancelFull := by
   intro h
-  have := h ⟨true, true, true, true, true, true⟩ [.halt] [.step 0 false]
+  have := h ⟨true, true, true, true, true, true, true⟩ [.halt] [.step 0 false]
     [.cancel, .watch, .step 0 false] rfl (by decide) ⟨0, by decide⟩
   exact this (by decide)
 
@@ -274,9 +276,9 @@ theorem finishedBeforeCancelFull_false : ¬ FinishedBeforeCancelFull := by
 
 /-- without the loop-head test a spinning VM survives any number of steps after the flag is set -/
 theorem spin_forever_without_loop_head (n : Nat) :
-    ((⟨[.jump 0], [⟨0, .running⟩], true, true, none⟩ : Sys).run
-      ⟨false, true, true, true, true, true⟩ (List.replicate n (.step 0 false))).vms[0]?
-      = some ⟨0, .running⟩ := by
+    ((⟨[.jump 0], [⟨0, .running, []⟩], true, true, none⟩ : Sys).run
+      ⟨false, true, true, true, true, true, true⟩ (List.replicate n (.step 0 false))).vms[0]?
+      = some ⟨0, .running, []⟩ := by
   induction n with
   | zero => rfl
   | succ n ih =>
@@ -285,19 +287,44 @@ theorem spin_forever_without_loop_head (n : Nat) :
 
 /-- without the done case a blocked select (no default, nothing ready) stays blocked for ever -/
 theorem blocked_forever_without_done_case (n : Nat) :
-    ((⟨[.select false], [⟨0, .blocked .select⟩], true, true, none⟩ : Sys).run
-      ⟨true, true, true, false, true, true⟩ (List.replicate n (.step 0 false))).vms[0]?
-      = some ⟨0, .blocked .select⟩ := by
+    ((⟨[.select false], [⟨0, .blocked .select, []⟩], true, true, none⟩ : Sys).run
+      ⟨true, true, true, false, true, true, true⟩ (List.replicate n (.step 0 false))).vms[0]?
+      = some ⟨0, .blocked .select, []⟩ := by
   induction n with
   | zero => rfl
   | succ n ih =>
     rw [List.replicate_succ, run_cons]
     exact ih
 
+/-- without the epilogue for every VM (say it is made conditional on `vm.main`) a poll helper
+`for !cond() {}` in native code never ends: the called-back VM stops at its loop head, its
+`runFunc` returns nil, the native code sees `false` and calls again — the goroutine stays alive
+for ever and `Run` does not return -/
+theorem callback_polls_forever_without_epilogue (n : Nat) :
+    ((⟨[.callback 2 true, .halt, .compute, .halt],
+       [⟨2, .running, [⟨0, 2, true⟩]⟩], true, true, none⟩ : Sys).run
+      ⟨true, true, true, true, true, true, false⟩ (List.replicate n (.step 0 false))).vms[0]?
+      = some ⟨2, .running, [⟨0, 2, true⟩]⟩ ∧
+    ((⟨[.callback 2 true, .halt, .compute, .halt],
+       [⟨2, .running, [⟨0, 2, true⟩]⟩], true, true, none⟩ : Sys).run
+      ⟨true, true, true, true, true, true, false⟩ (List.replicate n (.step 0 false))).result = none := by
+  induction n with
+  | zero => exact ⟨rfl, rfl⟩
+  | succ n ih =>
+    rw [List.replicate_succ, run_cons]
+    exact ih
+
+-- with it, the same goroutine is out after one step and Run has returned the context's error
+example :
+    let s := (⟨[.callback 2 true, .halt, .compute, .halt],
+       [⟨2, .running, [⟨0, 2, true⟩]⟩], true, true, none⟩ : Sys).run
+      ⟨true, true, true, true, true, true, true⟩ [.step 0 false]
+    s.result = some .ctxErr ∧ s.vms.all (fun v => !live v) = true := by decide
+
 -- non-vacuity: a program with a goroutine; main blocked in a receive, the goroutine spinning;
 -- cancel, watcher, one step each: both are out, Run has returned the context's error
 example :
-    let s := (init [.go 3, .recv, .halt, .jump 3]).run ⟨true, true, true, true, true, true⟩
+    let s := (init [.go 3, .recv, .halt, .jump 3]).run ⟨true, true, true, true, true, true, true⟩
       [.step 0 false, .step 0 false, .step 1 false, .step 1 false, .cancel, .watch,
        .step 1 false, .step 0 false]
     s.result = some .ctxErr ∧ s.vms.all (fun v => !live v) = true := by decide
@@ -328,6 +355,13 @@ before the panic check), and `vm.stop` storing the flag -/
 theorem runFunc_shape :
     watcherSetsDone = true ∧ rereadsDoneAfterFinish = true ∧ ctxErrBeforePanic = true ∧
       stopSetsDone = true := by decide
+
+/-- **generated fact**: watcher, `stop` channel and epilogue exist for every VM of a run that has
+a cancellable context — not only for the main one: a VM started by `go`, and a VM running a
+function value on behalf of native code (`callable.Value`), report the cancellation too -/
+theorem epilogue_for_every_vm :
+    watcherCondition = "vm.env.doneChan != nil" ∧ stopCondition = "vm.env.doneChan != nil" ∧
+      epilogueCondition = "stop != nil" ∧ epilogueForEveryVM = true := by decide
 
 /-- `prompt_stop` and `run_returns_ctxErr` for the code as it is -/
 theorem prompt_stop_code (s : Sys) (evs : List Ev) (i : Nat) (v : VM)
